@@ -79,6 +79,56 @@ PROPS["C03"] = {
     "thorough": {"cases": 2500000, "floor": 62500, "time_budget": 3000},
 }
 
+PROPS["C09"] = {
+    "worker": "c09", "variant": "chk", "level": "exploration",
+    "rule": ("case -> stream (generated single-frame Modular image: tiny..multi-group, multi-pass, permuted TOC, extra channels, orientation; "
+             "1/6 generated multi-frame stream: layers/animation, reference-only and skip-progressive frames, crops, blend modes; rarely the real "
+             "4-frame cmyk_layers.jxl re-wrapped) in a random layout (bare, jxlc, jxlp in 1..12 parts incl. empty parts, aux boxes before/between/"
+             "after, brob, 64-bit and to-EOF box sizes). Reference = whole file in one feed_bytes + try_init + finalize. 11 chunking classes "
+             "(1byte, rand16, rand4096, marks = every writer-recorded boundary +-1, marks1b, late, lazyinit, halves, window, creep = unconsumed "
+             "bytes re-offered with one more byte, JxlImage::read); quick runs 5 per case, thorough all. Compared field by field with the "
+             "reference: image header, dimensions, pixel format, ICC, frame/keyframe counts, frame_offset(0..=n), every frame header, done flag, "
+             "Exif/xml, JPEG status, per keyframe name/duration/orientation and every plane as raw bits. Decoder-independent truth: "
+             "frame_offset(i) and TOC offsets/sizes equal what the writer recorded, counts match, is_loading_done. Also violations: any "
+             "feed/init/finalize error, consumed > offered, leftover bytes of a complete file, panics. signature = layout class | structure class "
+             "| chunk subset; non-trivial iff at least one frame was rendered"),
+    "assumptions": [
+        "no generated preview frames, generated ICC, VarDCT or LF frames in this workload (ICC + multi-section multi-frame only through cmyk_layers.jxl)",
+        "junk jbrd boxes excluded: jpeg_reconstruction_status compared only among Unavailable/Invalid/NeedMoreData (real jbrd streams are in C17's partial-arrival mode)",
+        "single thread (JxlThreadPool::none()); thread variation is C07/C20",
+        "offers inside the 376 KB ICC of the real file are thinned to <= 40 (each try_init re-decodes the ICC from byte 0: quadratic time, a resource observation)",
+    ],
+    "level_text": ("exploration: tens of thousands of streams x 5-11 chunkings per run, millions of feed calls incl. hundreds of thousands of "
+                   "partial consumptions, every sample compared bit-exactly; 9 injected feed/offset bugs all detected during construction"),
+    "level_note": "trusted: jxlgen writers and their recorded boundaries, snapshot/diff code in feedutil.rs",
+    "technique": "runtime differential monitor over recorded API histories: chunked feed schedules vs one-shot decode, plus writer-recorded offsets as ground truth",
+    "quick": {"cases": 24000, "floor": 600, "time_budget": 300},
+    "thorough": {"cases": 220000, "floor": 5500, "time_budget": 3000},
+}
+
+PROPS["C11"] = {
+    "worker": "c11", "variant": "chk", "level": "exploration",
+    "rule": ("case -> stream as in C09; cut positions = every byte 0..=n for streams <= 1536 B (quick) / 4096 B (thorough), else writer-recorded "
+             "boundaries +-2 plus 80/200 random positions (capped at 16 MB / n). (a) fresh decoder per cut: feed prefix (one call or random "
+             "chunks), try_init, prefix oracles, render_loading_frame (1/6 twice), feed the rest, finalize, full snapshot diff against the "
+             "uninterrupted decode; (b) 3/6 long-lived decoders per stream with up to 40 ordered stops and loading renders, then completed and "
+             "diffed. Prefix oracles from the writer: is_loading_done iff every codestream byte is inside the prefix; num_loaded_frames/"
+             "keyframes = frames wholly inside the prefix; reported frame_offset(i) = final value; image_header = final. render_loading_frame: "
+             "Ok must have the complete render's width/height/channel count; Err must be need-more-data class (IncompleteFrame by downcast or "
+             "io::ErrorKind::UnexpectedEof found by walking source()). signature = stream class + region->outcome map; non-trivial iff a "
+             "loading render was attempted"),
+    "assumptions": [
+        "content of an Ok loading render is not judged (no oracle for partial images): only its shape, and that the final decode is unaffected",
+        "same workload limits as C09 (no generated VarDCT/preview/LF frames); single thread",
+    ],
+    "level_text": ("exploration: hundreds of thousands of cut points per quick run (every byte of short streams), each with a fresh decoder, plus "
+                   "thousands of long-lived decoders; final output bit-exact against the uninterrupted decode"),
+    "level_note": "trusted: jxlgen writers and their recorded boundaries, snapshot/diff code in feedutil.rs",
+    "technique": "runtime monitor over truncation histories: prefix-state oracles from writer-recorded boundaries + differential check of the completed decode",
+    "quick": {"cases": 3000, "floor": 75, "time_budget": 300},
+    "thorough": {"cases": 26000, "floor": 650, "time_budget": 3000},
+}
+
 PROPS["C10"] = {
     "worker": "c10", "variant": "chk", "level": "exploration",
     "rule": ("case = container file from jxlgen's writer: well-formed random layout (jxlc or 1..12 jxlp incl. empty parts, aux boxes "
@@ -334,6 +384,31 @@ PROPS["C15"] = {
     "technique": "runtime differential monitor: independent encoder + EXIF-derived orientation model -> real decoder outputs, per-sample oracle",
     "quick": {"cases": 40000, "floor": 1000, "time_budget": 240},
     "thorough": {"cases": 700000, "floor": 17500, "time_budget": 3000},
+}
+
+PROPS["C06"] = {
+    "worker": "c06", "variant": "chk", "level": "exploration",
+    "rule": ("case = one generated image (single-frame Modular with upsampling 2/4/8, ec dim_shift/ec_upsampling, Gabor, EPF 1-3, noise, "
+             "YCbCr 444/420/422/440, patches from a reference frame, palette/squeeze [full decode] or plain multi-group [group-filtered decode], "
+             "multi-pass, 8 orientations, narrow/wide buffers; or 2-3 frame image with cropped/negative-offset frames blended "
+             "Replace/Add/Mul/Blend/MulAdd, optional upsampling/filter/animation; or cmyk_layers.jxl) x 4 (thorough 6) sequences of 1..6 "
+             "set_image_region calls on one object; every render after a request is compared with that rectangle of a fresh object's full "
+             "render for every keyframe and channel (integer planes exact, float planes |diff| <= 1e-6), the last request's output must be "
+             "bit-identical to a fresh object given only that request; render errors/panics are violations. signature = (feature class, "
+             "orientation class, last rectangle kind|origin alignment to group/8px/upsampling grid|edge, sequence length class); "
+             "non-trivial iff >= 16 samples and some non-zero residual"),
+    "assumptions": [
+        "streams come from jxlgen plus c06.rs's frame assembly, patch dictionary and plain multi-group writer, all written from the format definition; the oracle compares the decoder with itself, so no pixel model is trusted",
+        "patch targets lie inside the colour-resolution frame; alpha patch modes only with a single extra channel (where the coding of alpha_channel is undisputed)",
+        "chroma-subsampled Modular frames only with even colour sample sizes",
+        "image sides <= 520 px quick, <= 1100 px thorough; VarDCT, splines, LF frames are not generated here (no pixel-domain VarDCT writer); the one real file is Modular",
+        "rectangles lie inside the image and are non-empty (the property's domain)",
+    ],
+    "level_text": "exploration: thousands (quick) to tens of thousands (thorough) of images x 4-6 request sequences, ~5e8 samples per 1000 cases compared; 11 of 13 injected padding/region bugs detected during construction (2 equivalent mutants)",
+    "level_note": "trusted: comparison code in vcheck/src/c06.rs (crop indexing, orientation mapping verified against encoder truth by c06::selftest)",
+    "technique": "runtime metamorphic monitor: region render vs crop of full render on a fresh object, plus history independence (bit-exact)",
+    "quick": {"cases": 6000, "floor": 150, "time_budget": 300},
+    "thorough": {"cases": 45000, "floor": 1200, "time_budget": 3000},
 }
 
 PROPS["C07"] = {
